@@ -293,6 +293,19 @@ func propC08(c *Ctx) {
 			}
 		}
 	}
+	// Min / Max / Sum over every ordered pair (and some triples) of a mixed-type pool: the running value is the
+	// FIRST operand of each comparison, the candidate is converted to its type
+	mixed := []*variants.Variant{vInt(2), vInt(-7), vLong(3), vFloat(2.5), vDouble(2.25), vDouble(-0.5), vStr("10"), vStr("9"), vStr("abc"), vBool(true), vNull(),
+		vSpan(1500 * time.Millisecond), vTime(time.Unix(5, 0)), vDouble(math.NaN()), vLong(1<<53 + 1)}
+	for _, f := range []string{"Min", "Max", "Sum"} {
+		for _, a := range mixed {
+			for _, b := range mixed {
+				runFnCase(c, "u", f, []*variants.Variant{a, b})
+				runFnCase(c, "s", f, []*variants.Variant{a, b})
+			}
+			runFnCase(c, "u", f, []*variants.Variant{a, mixed[c.Rng.Intn(len(mixed))], mixed[c.Rng.Intn(len(mixed))]})
+		}
+	}
 	runFnCase(c, "u", "nosuchfunction", nil)
 	runFnCase(c, "u", "sın", []*variants.Variant{vInt(1)}) // dotless i upper-cases to I
 	c.Notes = append(c.Notes, fmt.Sprintf("37 registered names in random letter case x %d argument lists each (valid arities 3/4 of the time, otherwise 0..8 arguments) from the boundary pool of 10 types, both managers; clock/random checked against the call interval / [0,1); transcendental functions checked against Go's math on the converted argument; Min/Max/Sum against the left fold", reps))
